@@ -221,6 +221,9 @@ func (us *UnitSpec) Unit() *vc.Unit {
 		base, baseNext := m.BaseHeap, m.BaseNext
 		m = m.Clone() // units are explored in parallel: hooks are per unit
 		m.CallHook = nil
+		if us.Hooks != nil {
+			us.Hooks(m)
+		}
 		if us.Prepare != nil {
 			h, n, perr := m.Prepare(us.Prepare)
 			if perr != nil {
